@@ -313,4 +313,158 @@ Proof.
   intros ops sy fe ue Hwf. eapply forward_preserves; [eassumption|].
   constructor; cbn; intros; try discriminate; reflexivity.
 Qed.
+(* ---- the same for blocks that also use cells of an enclosing scope (forward2) ------------------------ *)
+Notation final := (sym_final outv usef init).
+
+Record inv2 (decl : list nat) (rest : list sop) (sm fm : list (nat * sval))
+            (sy1 fe1 sy2 fe2 ue : fenv) (seen : list sval) : Prop := {
+  i2_sym_some : forall s v, sym_lookup s sm = Some v -> cell sy1 s = valof fe2 ue v /\ In v seen;
+  i2_sym_none : forall s, sym_lookup s sm = None -> cell sy1 s = cell sy2 s;
+  i2_f_some : forall r v, val_lookup r fm = Some v ->
+                 fe1 r = Some (valof fe2 ue v) /\ In v seen /\ In (VFetch r) seen;
+  i2_f_none : forall r, val_lookup r fm = None -> fe1 r = fe2 r;
+  (* a cell of the enclosing scope whose content lags behind has an update still to come *)
+  i2_pending : forall s, existsb (Nat.eqb s) decl = false ->
+                 cell sy1 s = cell sy2 s \/ later_update s rest = true }.
+
+Lemma resolve_ok2 : forall decl rest sm fm sy1 fe1 sy2 fe2 ue seen v,
+  inv2 decl rest sm fm sy1 fe1 sy2 fe2 ue seen -> valof fe1 ue v = valof fe2 ue (resolve fm v).
+Proof.
+  intros decl rest sm fm sy1 fe1 sy2 fe2 ue seen v I. destruct v as [n|r]; [reflexivity|].
+  cbn [resolve]. destruct (val_lookup r fm) as [w|] eqn:E.
+  - destruct (i2_f_some _ _ _ _ _ _ _ _ _ _ I r w E) as [H _]. cbn [sym_valof]. rewrite H. reflexivity.
+  - cbn [sym_valof]. rewrite (i2_f_none _ _ _ _ _ _ _ _ _ _ I r E). reflexivity.
+Qed.
+
+Lemma resolve_seen2 : forall decl rest sm fm sy1 fe1 sy2 fe2 ue seen v,
+  inv2 decl rest sm fm sy1 fe1 sy2 fe2 ue seen -> In (resolve fm v) (v :: seen).
+Proof.
+  intros decl rest sm fm sy1 fe1 sy2 fe2 ue seen v I. destruct v as [n|r]; [left; reflexivity|].
+  cbn [resolve]. destruct (val_lookup r fm) as [w|] eqn:E; [|left; reflexivity].
+  right. exact (proj1 (proj2 (i2_f_some _ _ _ _ _ _ _ _ _ _ I r w E))).
+Qed.
+
+Lemma cell_upd_same : forall sy s z, cell (upd sy s z) s = z.
+Proof. intros. unfold sym_cell, upd. rewrite Nat.eqb_refl. reflexivity. Qed.
+Lemma cell_upd_other : forall sy s s' z, Nat.eqb s' s = false -> cell (upd sy s z) s' = cell sy s'.
+Proof. intros sy s s' z H. unfold sym_cell, upd. rewrite H. reflexivity. Qed.
+
+Theorem forward2_preserves : forall decl ops sm fm sy1 fe1 sy2 fe2 ue seen,
+  wf_block ops seen = true -> inv2 decl ops sm fm sy1 fe1 sy2 fe2 ue seen ->
+  run (forward2 decl ops sm fm) sy2 fe2 ue = run ops sy1 fe1 ue
+  /\ (forall s, existsb (Nat.eqb s) decl = false ->
+        cell (final (forward2 decl ops sm fm) sy2 fe2 ue) s = cell (final ops sy1 fe1 ue) s).
+Proof.
+  intros decl. induction ops as [|o rest IH]; intros sm fm sy1 fe1 sy2 fe2 ue seen Hwf I.
+  - cbn. split; [reflexivity|]. intros s Hs.
+    destruct (i2_pending _ _ _ _ _ _ _ _ _ _ I s Hs) as [H|H]; [symmetry; assumption|discriminate].
+  - destruct o as [s|s v|s x|id args]; cbn [forward2 sym_run sym_final wf_block] in *.
+    + eapply IH; [eassumption|]. destruct I as [A B C D P].
+      constructor; try assumption;
+        (intros s' Hs'; destruct (P s' Hs') as [H|H]; [left; assumption|right; exact H]).
+    + (* update *)
+      set (z := valof fe1 ue v).
+      assert (Hz : z = valof fe2 ue (resolve fm v)) by (eapply resolve_ok2; eassumption).
+      assert (Hcommon : forall sy2',
+                (forall s', Nat.eqb s' s = false -> cell sy2' s' = cell sy2 s') ->
+                (existsb (Nat.eqb s) decl = false -> cell sy2' s = z \/ later_update s rest = true) ->
+                inv2 decl rest ((s, resolve fm v) :: sm) fm (upd sy1 s z) fe1 sy2' fe2 ue (v :: seen)).
+      { intros sy2' Hother Hs. constructor.
+        - intros s' w H. cbn [sym_lookup] in H. destruct (Nat.eqb s' s) eqn:E.
+          + apply Nat.eqb_eq in E. subst s'. inversion H; subst w. split.
+            * rewrite cell_upd_same. exact Hz.
+            * eapply resolve_seen2; eassumption.
+          + rewrite cell_upd_other by assumption.
+            destruct (i2_sym_some _ _ _ _ _ _ _ _ _ _ I s' w H) as [H1 H2]. split; [assumption|right; assumption].
+        - intros s' H. cbn [sym_lookup] in H. destruct (Nat.eqb s' s) eqn:E; [discriminate|].
+          rewrite cell_upd_other by assumption. rewrite Hother by assumption.
+          apply (i2_sym_none _ _ _ _ _ _ _ _ _ _ I). assumption.
+        - intros r w H. destruct (i2_f_some _ _ _ _ _ _ _ _ _ _ I r w H) as [H1 [H2 H3]].
+          split; [assumption|split; right; assumption].
+        - apply (i2_f_none _ _ _ _ _ _ _ _ _ _ I).
+        - intros s' Hs'. destruct (Nat.eqb s' s) eqn:E.
+          + apply Nat.eqb_eq in E. subst s'. rewrite cell_upd_same.
+            destruct (Hs Hs') as [H|H]; [left; symmetry; assumption|right; assumption].
+          + rewrite cell_upd_other by assumption. rewrite Hother by assumption.
+            destruct (i2_pending _ _ _ _ _ _ _ _ _ _ I s' Hs') as [H|H]; [left; assumption|].
+            right. cbn [later_update existsb] in H. rewrite E in H. exact H. }
+      destruct (existsb (Nat.eqb s) decl || later_update s rest) eqn:Ec.
+      * eapply IH; [eassumption|]. apply Hcommon; [reflexivity|].
+        intros Hd. rewrite Hd in Ec. cbn in Ec. right. assumption.
+      * cbn [sym_run sym_final]. rewrite <- Hz. eapply IH; [eassumption|].
+        apply Hcommon.
+        -- intros s' E. apply cell_upd_other. assumption.
+        -- intros _. left. apply cell_upd_same.
+    + (* fetch *)
+      apply andb_prop in Hwf. destruct Hwf as [Hfresh Hwf]. apply negb_true_iff in Hfresh.
+      assert (Hnone : val_lookup x fm = None).
+      { destruct (val_lookup x fm) as [w|] eqn:E; [|reflexivity].
+        destruct (i2_f_some _ _ _ _ _ _ _ _ _ _ I x w E) as [_ [_ Hin]].
+        pose proof (existsb_false_In _ _ _ Hfresh Hin) as Hm. cbn in Hm. rewrite Nat.eqb_refl in Hm. discriminate. }
+      destruct (sym_lookup s sm) as [w|] eqn:Es.
+      * destruct (i2_sym_some _ _ _ _ _ _ _ _ _ _ I s w Es) as [Hsy Hw].
+        eapply IH; [eassumption|]. constructor.
+        -- intros s' w' H. destruct (i2_sym_some _ _ _ _ _ _ _ _ _ _ I s' w' H) as [H1 H2].
+           split; [assumption|right; assumption].
+        -- apply (i2_sym_none _ _ _ _ _ _ _ _ _ _ I).
+        -- intros r w' H. cbn [val_lookup] in H. unfold upd. destruct (Nat.eqb r x) eqn:E.
+           ++ inversion H; subst. apply Nat.eqb_eq in E. subst r. split.
+              ** rewrite Hsy. reflexivity.
+              ** split; [right; assumption|left; reflexivity].
+           ++ destruct (i2_f_some _ _ _ _ _ _ _ _ _ _ I r w' H) as [H1 [H2 H3]].
+              split; [assumption|split; right; assumption].
+        -- intros r H. cbn [val_lookup] in H. unfold upd.
+           destruct (Nat.eqb r x) eqn:E; [discriminate|]. apply (i2_f_none _ _ _ _ _ _ _ _ _ _ I). assumption.
+        -- intros s' Hs'. destruct (i2_pending _ _ _ _ _ _ _ _ _ _ I s' Hs') as [H|H]; [left; assumption|right; exact H].
+      * cbn [sym_run sym_final]. pose proof (i2_sym_none _ _ _ _ _ _ _ _ _ _ I s Es) as Hcell.
+        rewrite <- Hcell. eapply IH; [eassumption|]. constructor.
+        -- intros s' w' H. cbn [sym_lookup] in H. destruct (Nat.eqb s' s) eqn:E.
+           ++ apply Nat.eqb_eq in E. subst s'. inversion H; subst w'. split; [|left; reflexivity].
+              cbn [sym_valof]. unfold upd. rewrite Nat.eqb_refl. reflexivity.
+           ++ destruct (i2_sym_some _ _ _ _ _ _ _ _ _ _ I s' w' H) as [H1 H2]. split; [|right; assumption].
+              rewrite valof_upd_f; [assumption|]. eapply existsb_false_In; eassumption.
+        -- intros s' H. cbn [sym_lookup] in H. destruct (Nat.eqb s' s) eqn:E; [discriminate|].
+           apply (i2_sym_none _ _ _ _ _ _ _ _ _ _ I). assumption.
+        -- intros r w' H. destruct (i2_f_some _ _ _ _ _ _ _ _ _ _ I r w' H) as [H1 [H2 H3]].
+           assert (Hrx : Nat.eqb r x = false).
+           { destruct (Nat.eqb r x) eqn:E; [|reflexivity]. apply Nat.eqb_eq in E. subst. congruence. }
+           split; [|split; right; assumption].
+           unfold upd at 1. rewrite Hrx. rewrite valof_upd_f; [assumption|].
+           eapply existsb_false_In; eassumption.
+        -- intros r H. unfold upd. destruct (Nat.eqb r x); [reflexivity|].
+           apply (i2_f_none _ _ _ _ _ _ _ _ _ _ I). assumption.
+        -- intros s' Hs'. destruct (i2_pending _ _ _ _ _ _ _ _ _ _ I s' Hs') as [H|H]; [left; assumption|right; exact H].
+    + (* any other op *)
+      apply andb_prop in Hwf. destruct Hwf as [Hfresh Hwf]. apply negb_true_iff in Hfresh.
+      assert (Hargs : map (valof fe1 ue) args = map (valof fe2 ue) (map (resolve fm) args)).
+      { rewrite map_map. apply map_ext. intros v. eapply resolve_ok2; eassumption. }
+      rewrite <- Hargs.
+      set (z := usef id (map (valof fe1 ue) args)).
+      assert (I' : inv2 decl rest sm fm sy1 fe1 sy2 fe2 (upd ue id z) (VOut id :: args ++ seen)).
+      { constructor.
+        - intros s' w' H. destruct (i2_sym_some _ _ _ _ _ _ _ _ _ _ I s' w' H) as [H1 H2].
+          split; [|right; apply in_or_app; right; assumption].
+          rewrite valof_upd_u; [assumption|].
+          eapply existsb_false_In; [eassumption|apply in_or_app; right; assumption].
+        - apply (i2_sym_none _ _ _ _ _ _ _ _ _ _ I).
+        - intros r w' H. destruct (i2_f_some _ _ _ _ _ _ _ _ _ _ I r w' H) as [H1 [H2 H3]].
+          split; [|split; right; apply in_or_app; right; assumption].
+          rewrite valof_upd_u; [assumption|].
+          eapply existsb_false_In; [eassumption|apply in_or_app; right; assumption].
+        - apply (i2_f_none _ _ _ _ _ _ _ _ _ _ I).
+        - intros s' Hs'. destruct (i2_pending _ _ _ _ _ _ _ _ _ _ I s' Hs') as [H|H]; [left; assumption|right; exact H]. }
+      destruct (IH sm fm sy1 fe1 sy2 fe2 (upd ue id z) _ Hwf I') as [IH1 IH2].
+      split; [f_equal; exact IH1|exact IH2].
+Qed.
+
+(* from the empty state: a whole block; the values computed AND the final content of every cell of the
+   enclosing scope are preserved *)
+Theorem forward2_preserves_block : forall decl ops sy fe ue, wf_block ops [] = true ->
+  run (forward2 decl ops [] []) sy fe ue = run ops sy fe ue
+  /\ (forall s, existsb (Nat.eqb s) decl = false ->
+        cell (final (forward2 decl ops [] []) sy fe ue) s = cell (final ops sy fe ue) s).
+Proof.
+  intros decl ops sy fe ue Hwf. eapply forward2_preserves; [eassumption|].
+  constructor; cbn; intros; try discriminate; try reflexivity. left. reflexivity.
+Qed.
 End DesymSem.
